@@ -593,7 +593,9 @@ func (r *rateLimiter) cleanupTimeoutClient() {
 			reason := fmt.Sprintf("instance %s last heartbeat since %v", instance, lastHeartbeat.Format(time.RFC3339Nano))
 			go func() {
 				for _, limitStore := range r.limitStoreMap {
-					conditions := limitStore.List(labels.Set{RateLimitConditionInstanceLabel: instance}.AsSelector())
+					// not AsSelector(): it validates the value and silently selects EVERYTHING when the
+					// instance id is not a valid label value (ids carry the free-text --client-id-prefix)
+					conditions := limitStore.List(labels.SelectorFromValidatedSet(labels.Set{RateLimitConditionInstanceLabel: instance}))
 					for _, condition := range conditions {
 						r.deleteCondition(limitStore, condition, reason)
 					}
